@@ -229,7 +229,7 @@ def h_pow2(zone="decided"):
 
     # Python ints are unbounded; the helper goes through a double logarithm, which the engine models
     # to the last place (DESIGN 3.2): up to 2^62 here
-    x = Int("x", 1, 2**62 if os.environ.get("VERIF_DEV") else 2**40)
+    x = Int("x", 1, 2**62)
     up = m.align_up_pow2(x)
     dn = m.align_down_pow2(x)
     # up/down are concrete powers of two on each path (case split over the exponent)
@@ -441,6 +441,28 @@ def h_decompose(kind):
         assume(a * e - b * d > 0)
     elif kind == "negdet":
         assume(a * e - b * d < 0)
+    if kind == "matrix":
+        # a 2x2 array handed in directly: decomposed, not rewritten
+        if symx.concrete_mode():
+            import numpy as _np
+
+            M = _np.asarray([[a, b], [d, e]], dtype="float64")
+            M0 = M.copy()
+            R_, W_, S_ = m.decompose_rws(M)
+            P = R_ @ W_ @ S_
+            tol = 1e-9 * (1 + float(abs(M0).max()))
+            prove("rws:callers_matrix_left_as_it_was", bool((M == M0).all()))
+            prove("rws:product_is_the_matrix_handed_in", bool((abs(P - M0) <= tol).all()))
+            return
+        from ..npmodel import Mat2
+
+        M = Mat2([[a, b], [d, e]])
+        R_, W_, S_ = m.decompose_rws(M)
+        prove("rws:callers_matrix_left_as_it_was", And(M.m[0][0] == a, M.m[0][1] == b, M.m[1][0] == d, M.m[1][1] == e))
+        P = R_ @ W_ @ S_
+        for nm, p, q in zip("abde", P.ravel(), (a, b, d, e)):
+            prove(f"rws:product_{nm}_is_the_entry_handed_in", p == q)
+        return
     A = Affine(a, b, c, d, e, f)
     R, W, S = m.decompose_rws(A)
     if symx.concrete_mode():
@@ -756,7 +778,7 @@ OBLIGATIONS = [
     Ob("N5_align", h_align, tiered([dict(amode=a) for a in ("1", "2", "16", "sym")], [dict(amode=a) for a in ("1", "2", "3", "16", "256", "1000", "sym")]),
        descr="align_down/align_up: nearest multiple on the stated side", functions=("odc.geo.math.align_down", "odc.geo.math.align_up"),
        bounds="x any int; align from grid or symbolic 1..64 (case split)", setup=setup),
-    Ob("N5_pow2", h_pow2, fixed(dict(zone="decided"), dict(zone="last_place")) if __import__("os").environ.get("VERIF_DEV") else fixed(), descr="align_up_pow2/align_down_pow2 for 1 <= x <= 2^62 (the double logarithm modelled to its last place; where that place decides, candidates go to the replay)",
+    Ob("N5_pow2", h_pow2, fixed(dict(zone="decided"), dict(zone="last_place")), descr="align_up_pow2/align_down_pow2 for 1 <= x <= 2^62 (the double logarithm modelled to its last place; where that place decides, candidates go to the replay)",
        functions=("odc.geo.math.align_up_pow2", "odc.geo.math.align_down_pow2"), bounds="1 <= x <= 2^40",
        stubs=("ceil(log2(n)) as ite chain",), setup=setup),
     Ob("N5_pow2_nonpos", h_pow2_nonpos, fixed(), descr="align_up_pow2(x<=0) == 1", functions=("odc.geo.math.align_up_pow2",), setup=setup),
@@ -778,7 +800,7 @@ OBLIGATIONS = [
        descr="Bin1D: bin(x) contains x; distinct bins disjoint; neighbours share an edge; from_sample_bin reconstructs",
        functions=("odc.geo.math.Bin1D",), bounds="x, origin symbolic reals; indices any int; size symbolic > 0 or from grid", setup=setup,
        timeout_ms=20000),
-    Ob("N9_decompose_rws", h_decompose, fixed(dict(kind="posdet"), dict(kind="negdet")),
+    Ob("N9_decompose_rws", h_decompose, fixed(dict(kind="posdet"), dict(kind="negdet"), dict(kind="matrix")),
        descr="decompose_rws: R*W*S == A, R proper rotation, W unit upper triangular, S diagonal (fully symbolic 2x2)",
        functions=("odc.geo.math.decompose_rws",), bounds="a,b,d,e symbolic reals, det != 0",
        stubs=("Mat2 model of numpy 2x2 ops; Cholesky entries fresh reals with defining equations",), setup=setup, timeout_ms=60000, fresh_only=True),
